@@ -6,7 +6,6 @@ package checks
 import (
 	"encoding/json"
 	"fmt"
-	"sort"
 	"strings"
 	"testing"
 
@@ -30,9 +29,25 @@ const (
 type msiMonitor struct {
 	lastOwner map[int32]int // line -> last core seen Modified
 	moved     bool          // some line was Modified on a core and later held (M or S) by another
+	// scratch maps, cleared at every snapshot (the monitor runs on every cycle)
+	semBusy map[int32]bool
+	cmd     map[msiKey]bool
+	state   map[msiKey]int32
+	owners  map[int32]uint32 // line -> bit mask of the cores holding it Modified
+	sharers map[int32]uint32 // line -> bit mask of the cores holding it Shared
+	l3      map[int32][]int8
+	seen    map[int32]bool
 }
 
-func newMonitor() *msiMonitor { return &msiMonitor{lastOwner: map[int32]int{}} }
+type msiKey struct {
+	core int
+	base int32
+}
+
+func newMonitor() *msiMonitor {
+	return &msiMonitor{lastOwner: map[int32]int{}, semBusy: map[int32]bool{}, cmd: map[msiKey]bool{}, state: map[msiKey]int32{},
+		owners: map[int32]uint32{}, sharers: map[int32]uint32{}, l3: map[int32][]int8{}, seen: map[int32]bool{}}
+}
 
 func byteAt(mem []int8, a int) int8 {
 	if a < 0 || a >= len(mem) {
@@ -41,11 +56,27 @@ func byteAt(mem []int8, a int) int8 {
 	return mem[a]
 }
 
+func maskCores(m uint32) []int {
+	var out []int
+	for c := 0; c < 32; c++ {
+		if m&(1<<uint(c)) != 0 {
+			out = append(out, c)
+		}
+	}
+	return out
+}
+
 // check returns "" when every invariant holds on the snapshot.
 func (mo *msiMonitor) check(s comp.VerifSnapshot, mem []int8) string {
 	ls := int32(s.LineSize)
+	clear(mo.semBusy)
+	clear(mo.cmd)
+	clear(mo.state)
+	clear(mo.owners)
+	clear(mo.sharers)
+	clear(mo.l3)
+	semBusy, cmd, state, owners, sharers, l3 := mo.semBusy, mo.cmd, mo.state, mo.owners, mo.sharers, mo.l3
 	// I5: lock counters never negative
-	semBusy := map[int32]bool{}
 	for _, sem := range s.Sems {
 		if sem.Read < 0 || sem.Write < 0 {
 			return fmt.Sprintf("I5: lock counters of line %d are read=%d write=%d", sem.Base, sem.Read, sem.Write)
@@ -54,58 +85,47 @@ func (mo *msiMonitor) check(s comp.VerifSnapshot, mem []int8) string {
 			semBusy[sem.Base] = true
 		}
 	}
-	type ck struct {
-		core int
-		base int32
-	}
-	cmd := map[ck]bool{}
 	for _, c := range s.Commands {
-		cmd[ck{c.Core, c.Base}] = true
-	}
-	state := map[ck]int32{}
-	for _, st := range s.States {
-		state[ck{st.Core, st.Base}] = st.State
+		cmd[msiKey{c.Core, c.Base}] = true
 	}
 	// I1
-	owners := map[int32][]int{}
-	sharers := map[int32][]int{}
 	for _, st := range s.States {
+		if st.State == msiInvalid {
+			continue
+		}
+		state[msiKey{st.Core, st.Base}] = st.State
 		switch st.State {
 		case msiModified:
-			owners[st.Base] = append(owners[st.Base], st.Core)
+			owners[st.Base] |= 1 << uint(st.Core)
 		case msiShared:
-			sharers[st.Base] = append(sharers[st.Base], st.Core)
+			sharers[st.Base] |= 1 << uint(st.Core)
 		}
 	}
-	for base, os := range owners {
+	for base, om := range owners {
+		os := maskCores(om)
 		if len(os) > 1 {
-			sort.Ints(os)
 			return fmt.Sprintf("I1: line %d is Modified on cores %v", base, os)
 		}
-		if len(sharers[base]) > 0 {
-			return fmt.Sprintf("I1: line %d is Modified on core %d and Shared on cores %v", base, os[0], sharers[base])
+		if sharers[base] != 0 {
+			return fmt.Sprintf("I1: line %d is Modified on core %d and Shared on cores %v", base, os[0], maskCores(sharers[base]))
 		}
 		if prev, ok := mo.lastOwner[base]; ok && prev != os[0] {
 			mo.moved = true
 		}
 		mo.lastOwner[base] = os[0]
 	}
-	for base, ss := range sharers {
-		if prev, ok := mo.lastOwner[base]; ok {
-			for _, c := range ss {
-				if c != prev {
-					mo.moved = true
-				}
-			}
+	for base, sm := range sharers {
+		if prev, ok := mo.lastOwner[base]; ok && sm&^(1<<uint(prev)) != 0 {
+			mo.moved = true
 		}
 	}
 	// the next level, for I2
-	l3 := map[int32][]int8{}
 	for _, l := range s.L3 {
 		l3[l.Base] = l.Data
 	}
 	for _, core := range s.Cores {
-		seen := map[int32]bool{}
+		seen := mo.seen
+		clear(seen)
 		for _, l := range core.L1 {
 			// I4
 			if l.Base%ls != 0 || len(l.Data) != s.LineSize {
@@ -115,7 +135,7 @@ func (mo *msiMonitor) check(s comp.VerifSnapshot, mem []int8) string {
 				return fmt.Sprintf("I4: core %d holds line %d twice", core.ID, l.Base)
 			}
 			seen[l.Base] = true
-			st := state[ck{core.ID, l.Base}]
+			st := state[msiKey{core.ID, l.Base}]
 			// I2
 			if st == msiShared {
 				if s.L3LineSize > 0 {
@@ -137,17 +157,17 @@ func (mo *msiMonitor) check(s comp.VerifSnapshot, mem []int8) string {
 			}
 		i3:
 			// I3, resident => not Invalid (outside a transfer in progress)
-			if st == msiInvalid && !semBusy[l.Base] && !cmd[ck{core.ID, l.Base}] && !l3Busy(s, l.Base) {
+			if st == msiInvalid && !semBusy[l.Base] && !cmd[msiKey{core.ID, l.Base}] && !l3Busy(s, l.Base) {
 				return fmt.Sprintf("I3: core %d holds line %d in L1 but its state is Invalid and no transfer is in progress", core.ID, l.Base)
 			}
 		}
 		// I3, not Invalid => resident
-		for _, st := range s.States {
-			if st.Core != core.ID || st.State == msiInvalid {
+		for k, st := range state {
+			if k.core != core.ID {
 				continue
 			}
-			if !seen[st.Base] && !semBusy[st.Base] && !cmd[ck{core.ID, st.Base}] && !l3Busy(s, st.Base) {
-				return fmt.Sprintf("I3: core %d has line %d in state %d but not in L1 and no transfer is in progress", core.ID, st.Base, st.State)
+			if !seen[k.base] && !semBusy[k.base] && !cmd[k] && !l3Busy(s, k.base) {
+				return fmt.Sprintf("I3: core %d has line %d in state %d but not in L1 and no transfer is in progress", core.ID, k.base, st)
 			}
 		}
 	}
